@@ -155,7 +155,7 @@ struct Mon {
   std::atomic<long> barrierChecks{0}, barrierFails{0}, failSched{0}, failDone{0}, failKind{0}, failWhere{0};
   std::atomic<long> futNotReady{0}, futChecked{0};
   std::atomic<long> maxOutstandingAtWait{0};
-  std::atomic<long> gatesStarted{0};
+  std::atomic<long> gatesStarted{0}, programsDone{0};
   std::atomic<int> release{0};
   std::atomic<bool> poolDead{false}, poolDying{false};
   std::atomic<long> resizes{0}, resizeGrow{0}, resizeShrink{0}, resizeZero{0};
